@@ -1,5 +1,6 @@
 import PsV.Proofs.Fit
 import PsV.Proofs.FitEntry
+import PsV.Proofs.FitUnderdet
 /-!
 # C13 — fit rejects inconsistent arguments instead of corrupting memory
 
@@ -434,7 +435,7 @@ theorem head_ncoeffs_wraps :
   have hc : fitChecks repaired wWrap = .ok := uni_checks (by omega) (by omega) (by omega) (Or.inl rfl)
   have hn : ncoeffs wWrap = 2^64 := by
     have : ncoeffs wWrap = (257 - 0 - 1) ^ 8 := uni_ncoeffs (by omega)
-    rw [this]
+    exact this.trans (by decide)
   refine ⟨hc, hn, ?_, ?_⟩
   · unfold ncoeffsW
     rw [hn]; exact Nat.mod_self _
@@ -703,5 +704,53 @@ example : good.data.WF ∧ NoWrapB good = true ∧ Ext.glamFailed ≠ Ext.badAll
     ((some (fitShape good) : Tbl).isSome = true ↔ ({ ndim := 2 } : PsV.Lifecycle.Tab).ndim ≠ 0) ∧
     (PsV.Lifecycle.fit PsV.Lifecycle.Cfg.head PsV.Lifecycle.Tab.empty none (toLifecycle good .done)).res = .ok := by
   refine ⟨⟨rfl, rfl, by decide⟩, by decide, by decide, by decide, by decide, by decide⟩
+
+
+/-! ## Accepted, but the solver's precondition cannot hold (link to C09 / C10)
+
+The sanity block checks shapes, not well-posedness.  `UnderdeterminedB a` (no smoothing in any dimension, fewer data
+points than coefficients) is a decidable class of argument tuples that the sanity block accepts although the normal
+matrix `BᵀWB` of *every* numerical fit problem of that shape is singular — the precondition "positive definite" of
+C09's `C09_fit_is_minimiser` / of `cholesky_solve` fails whatever the knots, abscissae, weights and data are.  What
+the code then does is not an argument error (observed: `cholesky_solve` returns non-finite or arbitrary coefficients
+with status 0; `fit` reports success) and belongs to C09/C10; if the solver does report failure, the table is empty
+again (`entry_solver_failure_leaves_empty`). -/
+
+section wellposed
+open PsV PsV.NormalEq PsV.Arith
+variable {α : Type} [Field α] [LinearOrder α] [IsStrictOrderedRing α] [A : Arith α] [L : LawfulArith α]
+
+/-- a numerical fit problem (C09's `FitProblem`: knots, abscissae, data rows, expanded smoothing) of the shape of `a` -/
+structure InstanceOf (P : FitProblem α) (a : Args) : Prop where
+  rows : P.rows.size = a.data.rows
+  ncoef : P.ncoef = ncoeffs a
+  smooth : (∀ i, i < a.data.ndim → a.smoothAt i = false) → ∀ l ∈ P.smooth, l = 0
+
+/-- **underdetermined_not_wellposed.**  For every numerical instance of an `UnderdeterminedB` argument tuple the
+    normal matrix is not positive definite. -/
+theorem underdetermined_not_wellposed (a : Args) (hu : UnderdeterminedB a = true) (P : FitProblem α)
+    (hP : InstanceOf P a) (hw : ∀ r < P.rows.size, 0 ≤ rowW P r) : ¬ PosDef P.ncoef (Mf P) := by
+  simp only [UnderdeterminedB, Bool.and_eq_true, List.all_eq_true, List.mem_range, Bool.not_eq_true',
+    decide_eq_true_eq] at hu
+  exact underdetermined_not_posDef P hw (hP.smooth hu.1) (by rw [hP.rows, hP.ncoef]; exact hu.2)
+
+end wellposed
+
+/-- 1-d, order 1, knots 0..3 (two coefficients), three abscissae, ONE data point, no smoothing -/
+def wUnder : Args := ⟨⟨1, 1, [3], [[0]]⟩, 1, [3], [1], [kn [0, 1, 2, 3]], [false], [1], noMonodim⟩
+
+/-- … is consistent, within the size condition, accepted, and `fit` builds the table when the solver reports success. -/
+theorem accepted_underdetermined_exists :
+    fitChecks repaired wUnder = .ok ∧ NoWrapB wUnder = true ∧ UnderdeterminedB wUnder = true ∧
+    fitEntry repaired head wUnder .done none = (.ok, some (fitShape wUnder)) := by decide
+
+/-- non-vacuity: C09's example problem without smoothing, cut down to its first data row, is an instance of `wUnder` -/
+example : InstanceOf ({ PsV.exP0 with rows := #[⟨[0], 1, 1⟩] } : PsV.FitProblem Rat) wUnder ∧
+    (∀ r < ({ PsV.exP0 with rows := #[⟨[0], 1, 1⟩] } : PsV.FitProblem Rat).rows.size,
+      0 ≤ PsV.rowW ({ PsV.exP0 with rows := #[⟨[0], 1, 1⟩] } : PsV.FitProblem Rat) r) := by
+  refine ⟨⟨rfl, by decide, fun _ l hl => ?_⟩, fun r hr => ?_⟩
+  · simp [PsV.exP0, PsV.exP] at hl; exact hl
+  · have : r = 0 := by simp at hr; omega
+    subst this; decide +kernel
 
 end PsV.Fit
